@@ -291,6 +291,10 @@ impl Session {
                 let v = self.xs().verif_dict_dump(from);
                 format!("dict:{}", v.join(" ; "))
             }
+            "d2load" => {
+                let r = xeh::d2_plugin::load(self.xs());
+                res_string(self.xs(), &r)
+            }
             "cursor" => {
                 let xs = &self.states[self.cur];
                 let inp = xs.get_var_value("input");
